@@ -244,6 +244,11 @@ func (e *Engine) intercept(fr *frame, fn *ssa.Function, args []Value) (Value, bo
 	case "(*sync.Map).LoadAndDelete":
 		e.stub("sync.Map")
 		m := e.syncMapOf(args[0].(PtrVal).C)
+		atomic := e.ev != nil && e.ev.active
+		if atomic {
+			e.beginAtomic() // one indivisible operation of sync.Map
+			defer e.endAtomic()
+		}
 		en := e.mapFind(fr, m, args[1])
 		if en == nil {
 			return TupleVal{IfaceVal{}, tb.Bool(false)}, true
@@ -254,6 +259,11 @@ func (e *Engine) intercept(fr *frame, fn *ssa.Function, args []Value) (Value, bo
 	case "(*sync.Map).LoadOrStore":
 		e.stub("sync.Map")
 		m := e.syncMapOf(args[0].(PtrVal).C)
+		atomic := e.ev != nil && e.ev.active
+		if atomic {
+			e.beginAtomic()
+			defer e.endAtomic()
+		}
 		en := e.mapFind(fr, m, args[1])
 		if en != nil {
 			return TupleVal{en.V, tb.Bool(true)}, true
